@@ -2,14 +2,15 @@ import SaModel.Props.C03Codec
 import SaModel.Props.C08
 import SaModel.Lemmas.C03Trace
 /-
-C03 for TRACED schemas: when the schema is what serde_arrow's own `from_type` returns, the schema-side hypotheses of
-`C03_wfS'` other than `Safe ∨ coveredF` are theorems.
+C03 for TRACED schemas: when the schema is what serde_arrow's own `from_type` returns, the schema-side hypothesis
+`SchemaOKF` of `Props.C01.C03_wf'` is a theorem (`PlainF` and `Safe ∨ coveredF` stay hypotheses).
 
   fromType_good    Trace.fromType c O ty = ok fields → every field is `SchemaOKF` (no `FixedSizeBinary(0)`) and the field
                    list is well typed (`typedFs`: sizes `i32`, union type ids `i8`) — `Props.C08.C08_from_type` (the
                    tracer returns the documented mapping, ∀ types, ∀ options) + `Lemmas.C03.mapping_good`; the user's
                    overwrites are taken as given, so they must satisfy the same two conditions (vacuous without overwrites)
-  C03_wf_traced    `C03_wf_codec_typed` for such a schema: what remains is `Safe ∨ coveredF` (schema) and `typed` (rows)
+  C03_wf_traced    `C03_wf_codec_typed` for such a schema: what remains is `PlainF` and `Safe ∨ coveredF` (schema), `GoodF` of
+                   the user's overwrites (options) and `typed` (rows)
 -/
 namespace SaModel.Props.C03
 open SaModel SaModel.Build SaModel.Spec
@@ -29,11 +30,11 @@ theorem fromType_good (c : Trace.Code) (O : Trace.Options) (ty : Trace.Ty) (fiel
     exact Lemmas.C03.fromTypeSpec_good O ho ty fields hs
   | error e => rw [hs] at hag; exact absurd hag (by simp [Lemmas.C08.Agree])
 
-/-- **C03 for a traced schema, as the driver instantiates it.**  Conclusion: the tightened `Spec.WF` (structure and type
-equality).  `hplain` (no metadata on a Map's entries field) is NOT yet derived from `fromType` here — the tracer writes
+/-- **C03 for a traced schema, as the driver instantiates it.**  Conclusion: `Spec.WF` (structure and type
+equality).  `hplain` (no metadata on a Map's entries field) is NOT derived from `fromType` here — the tracer writes
 `metadata: Default::default()` on every entries field it creates, only user overwrites could carry some; it is decidable on the
-given schema.  Of the schema otherwise only `Safe` OR `coveredF` is still assumed
-(the hypothesis of `Props.C01.C03_wfS'`; a traced schema with dictionary-encoded strings — a `Dictionary(UInt32, LargeUtf8)`
+given schema.  Of the schema otherwise only `Safe` OR `coveredF` is assumed (and `ho`: the user's overwrites are `GoodF`)
+(the hypothesis of `Props.C01.C03_wfS'` / `C03_wf'`; a traced schema with dictionary-encoded strings — a `Dictionary(UInt32, LargeUtf8)`
 column with non-nullable keys below an `Option<struct>` — is outside `Safe`, inside `coveredF`: `exTracedFields`). -/
 theorem C03_wf_traced (c : Trace.Code) (O : Trace.Options) (ty : Trace.Ty)
     (f32Str f64Str : Nat → String) (cast : Nat → Int → Bool → Nat → Option (Bool × Int))
